@@ -79,7 +79,12 @@ static bool apply(polyseed_data* s, pv_mseed* m, const char* pw, const char* pwc
      * the applications the process-wide mask is different while it runs (the seed keeps its feature bits) */
     bool other = g_rng && pv_randn(g_rng, 3) == 0;
     if (other) { polyseed_enable_features(pv_randn(g_rng, 7)); PV_COUNT("crypt.under_a_different_feature_mask", 1); }      /* raw calls: the per-call event log of crypt must survive */
+    /* the operation has no way to report failure, so it must do its job whatever the allocator says: in a quarter of the
+     * applications the next allocation request (if the operation makes any) is refused */
+    bool armed = g_rng && pv_randn(g_rng, 4) == 0;
+    if (armed) { pv_w->fail_countdown = 1 + (int)pv_randn(g_rng, 2); PV_COUNT("crypt.with_failing_allocator", 1); }
     pv_api_crypt(s, pw);
+    if (armed) { if (pv_w->fail_countdown == 0) PV_COUNT("crypt.with_failing_allocator(request refused)", 1); pv_w->fail_countdown = 0; }
     int nk_ev = pv_ev_count(PV_EV_KDF);
     if (other) polyseed_enable_features(7);
     (void)nk_ev;
@@ -150,7 +155,6 @@ done:
 /* canonically equivalent spellings give the same result */
 static uint64_t n_equiv(void) { return pv_scaled(6000, 1500000); }
 static void run_equiv(uint64_t idx, pv_rng* rng) {
-    (void)idx;
     pv_mseed m; pv_gen_mseed(rng, 7, true, &m);
     const char* cls; char* pw = pv_gen_password(rng, &cls);
     char* a = pv_nfc_alloc(pw); char* b = pv_nfkd_alloc(pw);
@@ -162,7 +166,9 @@ static void run_equiv(uint64_t idx, pv_rng* rng) {
         polyseed_data* s = pv_seed_from_model(&m);
         if (!s) break;
         char* in = pv_exact_str(forms[k]);
+        if ((idx + (uint64_t)k) % 3 == 0) pv_w->fail_countdown = 1;          /* a refused allocation must not make the spelling matter */
         pv_api_crypt(s, in); PV_COUNT("evaluations", 1);
+        pv_w->fail_countdown = 0;
         uint8_t* o = malloc(32); pv_api_store(s, o); memcpy(outs[k], o, 32); free(o);
         free(in); pv_api_free(s);
     }
